@@ -687,7 +687,14 @@ func c02Blockhash(r *core.Report) {
 							continue
 						}
 						for _, pair := range [][2]ast.Expr{{be.X, be.Y}, {be.Y, be.X}} {
-							if keys[core.ObjOf(info, pair[0])] && core.ExprStr(core.Unparen(pair[1])) == want {
+							other := core.Unparen(pair[1])
+							// a local that holds len(X)-1 (assigned once) counts as len(X)-1
+							if o := core.ObjOf(info, other); o != nil {
+								if d := singleDef(f, o); d != nil {
+									other = core.Unparen(d)
+								}
+							}
+							if keys[core.ObjOf(info, pair[0])] && core.ExprStr(other) == want {
 								last = true
 							}
 						}
